@@ -61,6 +61,37 @@ where
     Ok(v)
 }
 
+/// Validates an element count read from the wire.
+///
+/// Every element of a list, set or map occupies at least one byte in all protocols, so a
+/// count larger than the bytes that are left (`remaining`, when the reader knows it)
+/// cannot be honest. Decoders size their containers from this number; rejecting it here
+/// keeps a corrupted or hostile count from turning into a huge or overflowing allocation.
+#[inline]
+pub(crate) fn check_wire_count(
+    count: i64,
+    remaining: Option<usize>,
+) -> Result<usize, ThriftException> {
+    if count < 0 {
+        return Err(new_protocol_exception(
+            ProtocolExceptionKind::NegativeSize,
+            format!("negative element count {}", count),
+        ));
+    }
+    if let Some(remaining) = remaining {
+        if count as u64 > remaining as u64 {
+            return Err(new_protocol_exception(
+                ProtocolExceptionKind::SizeLimit,
+                format!(
+                    "element count {} exceeds the {} remaining bytes",
+                    count, remaining
+                ),
+            ));
+        }
+    }
+    Ok(count as usize)
+}
+
 /// Validates a length prefix read from the wire against the bytes that are actually
 /// left, so that a corrupted or hostile length yields an error instead of a panic in
 /// `Bytes::split_to`.
